@@ -724,7 +724,7 @@ fn gen_workload(rng: &mut Rng, shape: u32, len: usize) -> Workload {
         let s = if (rows.is_empty() || c < if pad > 0 { 75 } else { 50 }) && !reopened {
             let k = next_key; next_key += 1;
             Step::Ins(t, k, rng.range(1, 99))
-        } else if rows.is_empty() { continue }
+        } else if rows.is_empty() { if st.values().all(|m| m.is_empty()) { break; } continue }
         else if c < 85 { let (k, _) = *rng.pick(&rows); Step::Upd(t, k, rng.range(100, 199)) }
         else { let (k, _) = *rng.pick(&rows); Step::Del(t, k) };
         apply_logical(&mut st, &s);
